@@ -4,6 +4,7 @@
 # property predicate evaluated on the implementation's own outputs.
 import json, os
 import pipe
+from common import hx
 
 RULE = ('fixed corpus (track shorter than the block list: file extended under --ignore_size, cut track; recorded size below '
         'the header size; >10 consecutive unrepairable blocks; all-zero blocks) then random scenarios: both tools, codecs 1-4 '
@@ -255,6 +256,44 @@ def facade_answer(algo, n, k, m, e):
     return (rm, re_, ok), None
 
 
+def facade_wrapper_case(ctx, algo, n, k, m, e, er=None):
+    """codecs 1/2: ECCMan.decode = FacadeDec.fac_decode12 around the third-party decoder.  The inner decoder's own answer
+    is captured and handed to the extracted model; the model's verdict (answer let through / refused by the capacity
+    check) and bytes must equal what ECCMan.decode did."""
+    from props import rs_common as R
+    c = R.codec(algo, n, k)
+    inner = {'ans': None}
+    em = c.ecc_manager
+    saved = (em.decode, em.decode_fast)
+
+    def wrap(f):
+        def g(*a, **kw):
+            inner['ans'] = None
+            r = f(*a, **kw)
+            inner['ans'] = (bytes(r[0], 'latin-1') if isinstance(r[0], str) else bytes(bytearray(r[0])),
+                            bytes(r[1], 'latin-1') if isinstance(r[1], str) else bytes(bytearray(r[1])))
+            return r
+        return g
+    em.decode, em.decode_fast = wrap(saved[0]), wrap(saved[1])
+    try:
+        with R.quiet():
+            try:
+                if er is None:
+                    rm, re_ = c.decode(m, e)
+                else:
+                    rm, re_ = c.decode(m, e, enable_erasures=True, erasures_char=er)
+                impl = 'S %s %s' % (hx(bytes(rm)), hx(bytes(re_)))
+            except Exception as ex:
+                impl = 'N' if type(ex).__name__ == 'RSCodecError' else 'EXC ' + type(ex).__name__
+    finally:
+        em.decode, em.decode_fast = saved
+    ia = inner['ans']
+    line = 'facdec12 %d %d 0 %d %s %s %d %s %s' % (n, k, 256 if er is None else er, hx(m), hx(e), 1 if ia else 0,
+                                                   hx(ia[0]) if ia else '-', hx(ia[1]) if ia else '-')
+    model = ctx.model.run([line])[0]
+    return impl, model, ia
+
+
 def facade_radius_case(algo, n, k, m, e):
     """C04's block clause at the facade boundary: an answer that passes the check and changes the message must lie within
     the decoding radius (errors only: 2 * #changed symbols of message+parity <= n-k)."""
@@ -286,6 +325,15 @@ def facade_radius_stream(ctx):
                         r[p] = rng.choice([x for x in range(256) if x != w[p]])
                     r = bytes(r)
                     holds, det = facade_radius_case(algo, n, k, r[:k], r[k:])
+                    if algo in (1, 2):
+                        L = rng.choice([k, k, max(1, k - 1)])          # also short (left-padded) messages
+                        er = rng.choice([None, None, 0, 255])
+                        m_, e_ = r[k - L:k], r[k:]
+                        impl, model, ia = facade_wrapper_case(ctx, algo, n, k, m_, e_, er)
+                        ctx.count('facade_wrapper:' + ('let-through' if impl.startswith('S') else 'refused' if impl == 'N' else 'other'))
+                        if impl != model:
+                            ctx.disagree({'kind': 'facade-wrapper', 'algo': algo, 'n': n, 'k': k, 'm': m_.hex(), 'e': e_.hex(), 'er': er},
+                                         model, impl, what='ECCMan.decode (codecs 1/2) != FacadeDec.fac_decode12 on the captured inner answer')
                     ctx.evaluations += 1
                     ctx.count('facade_radius:' + ('refused' if 'decoder' in det else 'answered'))
                     case = {'kind': 'facade', 'algo': algo, 'n': n, 'k': k, 'm': r[:k].hex(), 'e': r[k:].hex()}
@@ -312,6 +360,10 @@ def run(ctx):
 
 
 def replay_case(ctx, case):
+    if case.get('kind') == 'facade-wrapper':
+        impl, model, ia = facade_wrapper_case(ctx, case['algo'], case['n'], case['k'], bytes.fromhex(case['m']), bytes.fromhex(case['e']), case.get('er'))
+        return {'holds': True, 'implementation': impl, 'model': model, 'inner_answer': [x.hex() for x in ia] if ia else None,
+                'note': 'correspondence case: no property failure by itself'}
     if case.get('kind') == 'facade':
         holds, det = facade_radius_case(case['algo'], case['n'], case['k'], bytes.fromhex(case['m']), bytes.fromhex(case['e']))
         return dict(det, holds=holds)
